@@ -84,6 +84,61 @@ theorem history_main {cfg : Cfg} (hb : cfg.bareBypass = false) (hH : 1 ≤ cfg.h
             simp only [run]
           rw [← this]; exact hstarted
 
+/-! ### any number of sessions -/
+
+/-- As `AboveRegion`, for histories in which `stop` may occur anywhere: while the output of every
+operation is replayed, the cursor stays at or below the first row under the finished output so far. -/
+def AboveRegionM (cfg : Cfg) : St → View → Screen → List Op → Prop
+  | _, _, _, [] => True
+  | st, v, s, op :: rest =>
+    (∀ r ∈ rowTrace cfg.height s (step cfg noFault st op).out, v.printed.length ≤ r) ∧
+    AboveRegionM cfg (step cfg noFault st op).st (viewStepM cfg st v op)
+      (replay cfg.height s (step cfg noFault st op).out) rest
+
+/-- Invariant carried through a history with any number of sessions (repaired `stop`). -/
+theorem history_multi {cfg : Cfg} (hb : cfg.bareBypass = false) (hreset : cfg.resetShape = true)
+    (hH : 1 ≤ cfg.height) (ops : List Op) :
+    ∀ (st : St) (v : View) (s : Screen), Good cfg st v s → wfOpsM cfg st ops = true →
+      Good cfg (specRunM cfg st v ops).1 (specRunM cfg st v ops).2
+        (replay cfg.height s (run cfg noFault st ops).2.1) ∧
+      (specRunM cfg st v ops).1 = (run cfg noFault st ops).1 ∧
+      AboveRegionM cfg st v s ops := by
+  induction ops with
+  | nil => intro st v s g _; exact ⟨by simpa [run, specRunM, replay_nil] using g, rfl, trivial⟩
+  | cons op rest ih =>
+    intro st v s g hwf
+    simp only [wfOpsM, Bool.and_eq_true] at hwf
+    obtain ⟨hop, hwfr⟩ := hwf
+    have hstep : ∃ s', Run cfg.height v.printed.length s (step cfg noFault st op).out s' ∧
+        Good cfg (step cfg noFault st op).st (viewStepM cfg st v op) s' := by
+      by_cases hstop : op = .stop
+      · subst hstop
+        simp only [if_true, Bool.and_eq_true] at hop
+        have hfit' : st.started = true → cfg.transient = true → (stopFrame cfg st).length + 1 ≤ cfg.height := by
+          intro h1 h2
+          have := hop.2
+          simp [h1, h2] at this
+          exact this
+        obtain ⟨s', hrun, hg, _⟩ := good_stop_good hH hreset g hfit'
+        refine ⟨s', hrun, ?_⟩
+        simp only [viewStepM, if_true]
+        exact hg
+      · simp only [hstop, if_false, Bool.and_eq_true] at hop
+        obtain ⟨⟨happ, herr⟩, hfit⟩ := hop
+        have herr' : (step cfg noFault st op).err = none := by
+          cases h : (step cfg noFault st op).err <;> simp [h] at herr ⊢
+        have hfit' : redraws cfg st op = true → (shown cfg (step cfg noFault st op).st).length ≤ cfg.height := by
+          intro h; simp [h] at hfit; exact hfit
+        obtain ⟨s', hrun, hg⟩ := good_step hb hH g op hstop happ herr' hfit'
+        exact ⟨s', hrun, by simpa [viewStepM, hstop] using hg⟩
+    obtain ⟨s', hrun, hg⟩ := hstep
+    obtain ⟨hgood, hstate, habove⟩ := ih _ _ _ hg hwfr
+    refine ⟨?_, ?_, ⟨hrun.2, by rw [hrun.1]; exact habove⟩⟩
+    · rw [run_cons_out, replay_append, hrun.1]
+      simpa [specRunM] using hgood
+    · simp only [specRunM, run]
+      exact hstate
+
 /-- The initial state of a fresh display on a fresh terminal satisfies the invariant. -/
 theorem good_init (cfg : Cfg) (ov : Overflow) (r0 : Frame) (hH : 1 ≤ cfg.height) :
     Good cfg (initSt ov r0) {} Screen.init := by
